@@ -325,3 +325,79 @@ fn paging_case(rng: &mut StdRng, b: &Value, rep: &mut Report) {
         }
     }
 }
+
+
+// ---- implementation -> spec: recorded random page sequences for Trace_MasterServer.tla -------------------------
+
+pub fn trace_paging(seed: u64, runs: usize, out: &mut Vec<Value>, rep: &mut Report) {
+    use gamedig::verif_hook as hook;
+    let mut rng = StdRng::seed_from_u64(seed);
+    for ix in 0 .. runs {
+        let k = rng.gen_range(1 ..= 8usize);
+        let lens: Vec<usize> = (0 .. k)
+            .map(|i| {
+                let n = [0usize, 1, 1, 2, 3, 7, 40, 230][rng.gen_range(0 .. 8)];
+                if i + 1 < k { n.max(1) } else { n }
+            })
+            .collect();
+        let mut all: Vec<([u8; 4], u16)> = Vec::new();
+        let mut batches = Vec::new();
+        let mut lasts: Vec<String> = vec!["0.0.0.0:0".to_string()];
+        let pool = rng.gen_bool(0.6);
+        for (i, n) in lens.iter().enumerate() {
+            let mut page = Vec::new();
+            for _ in 0 .. *n {
+                let a = loop {
+                    let ip: [u8; 4] = if pool { [[10, 0, 0, 9], [10, 0, 0, 9], [0, 0, 0, 0], [192, 168, 1, 1]][rng.gen_range(0 .. 4)] } else { [rng.gen(), rng.gen(), rng.gen(), rng.gen()] };
+                    let port: u16 = if pool { [0u16, 1, 27015, 27016, 65535][rng.gen_range(0 .. 5)] } else { rng.gen() };
+                    let text = format!("{}.{}.{}.{}:{}", ip[0], ip[1], ip[2], ip[3], port);
+                    // not the terminator; a page does not end with the address it was seeded with; the seeds of a query are
+                    // distinct (so that the seed of a request identifies the page it follows)
+                    if (ip != [0, 0, 0, 0] || port != 0) && all.last() != Some(&(ip, port)) && !lasts.contains(&text) {
+                        break (ip, port);
+                    }
+                };
+                page.push(a);
+                all.push(a);
+            }
+            if let Some((ip, port)) = page.last() {
+                lasts.push(format!("{}.{}.{}.{}:{}", ip[0], ip[1], ip[2], ip[3], port));
+            }
+            batches.push(vec![terminator_page(&page, i + 1 == lens.len())]);
+        }
+        let script = ScriptJ::udp(batches);
+        let rec = run_call(&script, DEFAULT_MAX_OPS, move || {
+            let mut ms = ValveMasterServer::new(&addr(27011))?;
+            ms.query(Region::Europe, None).map(|v| v.len())
+        });
+        rep.evaluations += 1;
+        rep.distinct.insert(hash_of(&(lens.clone(), pool)));
+        let start = out.len();
+        out.push(json!({"ev":"Call","ix":ix,"pages":lens}));
+        for e in &rec.events {
+            match e {
+                hook::Event::Send { data, .. } => {
+                    let seed_end = data.get(2 ..).and_then(|d| d.iter().position(|x| *x == 0)).map(|p| p + 2).unwrap_or(data.len());
+                    let seed = String::from_utf8_lossy(data.get(2 .. seed_end).unwrap_or(&[])).to_string();
+                    let idx = lasts.iter().position(|l| *l == seed).map(|i| i as u64).unwrap_or(99);
+                    out.push(json!({"ev":"Request","seed":idx}));
+                }
+                hook::Event::Recv { out: hook::RecvOut::Data(_), .. } => out.push(json!({"ev":"Page"})),
+                hook::Event::Recv { .. } => out.push(json!({"ev":"Timeout"})),
+                _ => {}
+            }
+        }
+        match &rec.outcome {
+            Outcome::Ok(v) => out.push(json!({"ev":"Return","ok":true,"count":v})),
+            Outcome::Err(_) => out.push(json!({"ev":"Return","ok":false,"count":0})),
+            Outcome::Panic { msg } => {
+                rep.violation("C16", &format!("master query panic {}", crate::valve::first_line(msg)), json!({"kind":"master-trace","pages":lens,"script":script}));
+                out.truncate(start);
+            }
+            Outcome::Hang => {
+                rep.violation("C16", "master query does not return", json!({"kind":"master-trace","pages":lens,"script":script}));
+                out.truncate(start);
+            }
+        }
+    }
+}
